@@ -107,6 +107,29 @@ def body_listing(name, depth1, check=True):
             if g.status_class != "2xx" or g.body != (b"xz" if res[1] == "z.ics" else b"xa"):
                 return (False, "member-href-not-served")
     ok = len(got) == len(want) and set(x for x in got if x is not None) == want and None not in got
+    if ok and depth1:
+        # the member hrefs of a sync-collection answer are built by other code (sync.py): same obligation
+        # (calendar-query / multiget hrefs: C11 `report`, C17)
+        CAL = "urn:ietf:params:xml:ns:caldav"
+        sy = Wd.ET.Element("{DAV:}sync-collection")
+        Wd.ET.SubElement(sy, "{DAV:}sync-token")
+        Wd.ET.SubElement(sy, "{DAV:}sync-level").text = "1"
+        Wd.ET.SubElement(Wd.ET.SubElement(sy, "{DAV:}prop"), "{DAV:}getetag")
+        for body, hdrs in ((sy, []),):
+            rr = mweb.call(app, "REPORT", mweb.CAL + "/", xml=body, content_type="text/xml", headers=hdrs, prefix=prefix, wsgi=wsgi)
+            if rr.kind != "multistatus":
+                return (False, "report-failed")
+            names = []
+            for st in rr.statuses:
+                if not isinstance(st, Wd.Status):
+                    continue  # the sync-token
+                pi = deref(mweb.emitted_href(st), prefix)
+                res = _names_of(app, pi) if pi is not None else None
+                if res is None or res[0] != "member":
+                    return (False, "report-href")
+                names.append(res[1])
+            if sorted(names) != sorted([name, "z.ics"]):
+                return (False, "report-href")
     return (ok, "depth1" if depth1 else "depth0")
 
 
@@ -293,7 +316,7 @@ HARNESSES = [
             describe="listing / multiget-href / MKCOL obligations for member names from a menu of rare patterns "
                      "('%' + two hex digits, encoded look-alikes, reserved characters), index chosen by the solver",
             encodes=_ENC),
-    Harness("collection", h_collection, body_collection, classes=[("listed", ("/", False))],
+    Harness("collection", h_collection, body_collection, classes=[("listed", ("/", False))], twin_budget={"quick": 75, "thorough": 120},
             parts={"quick": [("/", False), ("/dav/", True)], "thorough": _PARTS_T}, bounds=_B,
             budget={"quick": 90, "thorough": 600},
             describe="MKCOL with a symbolic collection name, then the parent's Depth 1 listing resolves to it",
